@@ -1460,7 +1460,7 @@ func TestProp(t *testing.T) {
 		rep.Floor("wholeflow_sign_in_refused", 100)
 		rep.Floor("wholeflow_callback_redirects", 200)
 		rep.Floor("sign_in_pages", 20)
-		rep.Floor("sign_out_pages", 20)
+		rep.Floor("sign_out_pages", 8)
 		rep.Floor("error_pages", 500)
 		rep.Floor("error_pages_for_unsigned", 200)
 		rep.Floor("locations_inspected", 300)
